@@ -23,3 +23,10 @@ Definition ParseTree (src : bytes) : result tree :=
   x <- ParseBlocksTree src ;;
   let '(t, refs) := x in
   attach_inlines (InlineChildren refs src) t.
+
+(* goldmark.Convert of the default configuration with the given renderer options:
+   Parse, then Render, both models *)
+Require Import GM.model.HtmlI.
+Definition ConvertModel (cfg : rcfg) (src : bytes) : result bytes :=
+  t <- ParseTree src ;;
+  RenderHTML cfg src t.
